@@ -160,16 +160,59 @@ type Env struct {
 	MyIPEx []string            `json:"myipex"`
 }
 
+// Shadow: the script declares `function <H>() { return <V>; }` under the name of a predefined helper
+type Shadow struct {
+	H string `json:"h"`
+	V JS     `json:"v"`
+}
+
 type ECase struct {
-	Tree     Tree   `json:"tree"`
-	Entry    string `json:"entry"` // fn, fnx, both, none, notfn
-	Env      Env    `json:"env"`
-	URL      string `json:"url"`
-	Hostname string `json:"hostname"`
+	Tree     Tree     `json:"tree"`
+	Shadows  []Shadow `json:"shadows,omitempty"`
+	Lexical  string   `json:"lexical,omitempty"` // the script has `const <helper> = 1;` at top level
+	AtLoad   bool     `json:"at_load,omitempty"` // the body's helper call (a `show` tree with literal arguments) is made by a top-level statement
+	Entry    string   `json:"entry"`             // fn, fnx, both, none, notfn
+	Env      Env      `json:"env"`
+	URL      string   `json:"url"`
+	Hostname string   `json:"hostname"`
+}
+
+func (c ECase) scopeCoq() string {
+	var sh []string
+	for _, x := range c.Shadows {
+		sh = append(sh, fmt.Sprintf("(H%s, %s)", x.H, x.V.Coq()))
+	}
+	lex := "None"
+	if c.Lexical != "" {
+		lex = "(Some H" + c.Lexical + ")"
+	}
+	return fmt.Sprintf("{| sc_shadow := %s; sc_lexical := %s; sc_at_load := %s |}", coqfmt.List("(helper * jsval)", sh), lex, coqfmt.Bool(c.AtLoad))
 }
 
 func (c ECase) Script() string {
+	return c.prelude() + c.entrySrc()
+}
+
+// prelude: what the script declares besides its entry point
+func (c ECase) prelude() string {
+	var sb strings.Builder
+	for _, x := range c.Shadows {
+		fmt.Fprintf(&sb, "function %s() { return %s; }\n", x.H, x.V.Src())
+	}
+	if c.Lexical != "" {
+		fmt.Fprintf(&sb, "const %s = 1;\n", c.Lexical)
+	}
+	if c.AtLoad { // a table computed while the script is loaded
+		fmt.Fprintf(&sb, "var LOADED = (function () { %s })();\n", c.Tree.Src())
+	}
+	return sb.String()
+}
+
+func (c ECase) entrySrc() string {
 	body := c.Tree.Src()
+	if c.AtLoad {
+		body = "return LOADED;"
+	}
 	switch c.Entry {
 	case "fn":
 		return "function FindProxyForURL(url, host) { " + body + " }"
@@ -284,10 +327,11 @@ func sortStrings(s []string) {
 func optStr(ok bool, s string) string { return coqfmt.Opt(ok, coqfmt.Str(s)) }
 
 type eobs struct {
-	newOK bool
-	resOK bool
-	res   string
-	err   string
+	panicked bool
+	newOK    bool
+	resOK    bool
+	res      string
+	err      string
 }
 
 func newResolver(c ECase) (*pac.ProxyResolver, error) {
@@ -303,7 +347,15 @@ func observeE(c ECase) (string, eobs) {
 	if err != nil {
 		panic("generator produced an unparsable URL " + c.URL)
 	}
-	pr, err := newResolver(c)
+	pr, err := func() (pr *pac.ProxyResolver, err error) {
+		defer func() {
+			if r := recover(); r != nil {
+				o.panicked = true
+				pr, err = nil, fmt.Errorf("panic: %v", r)
+			}
+		}()
+		return newResolver(c)
+	}()
 	if err == nil {
 		o.newOK = true
 		s, err := pr.FindProxyForURL(u, c.Hostname)
@@ -324,9 +376,9 @@ func observeE(c ECase) (string, eobs) {
 	extra = append(extra, host, u.String())
 	hasFn := c.Entry == "fn" || c.Entry == "both"
 	hasFnx := c.Entry == "fnx" || c.Entry == "both"
-	return fmt.Sprintf("{| ec_tree := %s; ec_has_fn := %s; ec_has_fnx := %s; ec_env := %s; ec_url := %s; ec_hostname := %s; ec_url_hostname := %s; ec_new_ok := %s; ec_res := %s |}",
+	return fmt.Sprintf("{| ec_tree := %s; ec_has_fn := %s; ec_has_fnx := %s; ec_env := %s; ec_url := %s; ec_hostname := %s; ec_url_hostname := %s; ec_scope := %s; ec_panicked := %s; ec_new_ok := %s; ec_res := %s |}",
 		c.Tree.Coq(), coqfmt.Bool(hasFn), coqfmt.Bool(hasFnx), c.Env.Coq(extra), coqfmt.Str(u.String()), coqfmt.Str(c.Hostname),
-		coqfmt.Str(u.Hostname()), coqfmt.Bool(o.newOK), optStr(o.resOK, o.res)), o
+		coqfmt.Str(u.Hostname()), c.scopeCoq(), coqfmt.Bool(o.panicked), coqfmt.Bool(o.newOK), optStr(o.resOK, o.res)), o
 }
 
 // ---------------------------------------------------------------- generators
@@ -586,6 +638,67 @@ func genTwoFamilies(r *rng.R) *Tree {
 	return &Tree{K: "node", H: f.H, Args: f.Args, Yes: second(), No: second()}
 }
 
+var jsHelpers = []string{"dnsDomainIs", "dnsDomainLevels", "isPlainHostName", "localHostOrDomainIs", "shExpMatch", "isInNet", "isResolvable"}
+
+// dnsResolve is left out: the library's isInNet / isResolvable call it themselves
+var shadowable = append([]string{"myIpAddress", "isResolvableEx", "isInNetEx", "dnsResolveEx", "myIpAddressEx", "sortIpAddressList", "getClientVersion"}, jsHelpers...)
+
+func helpersOf(t *Tree, acc map[string]bool) {
+	if t == nil {
+		return
+	}
+	if t.H != "" {
+		acc[t.H] = true
+	}
+	helpersOf(t.Yes, acc)
+	helpersOf(t.No, acc)
+}
+
+func allLiteral(args []Arg) bool {
+	for _, a := range args {
+		if a.K != "lit" {
+			return false
+		}
+	}
+	return true
+}
+
+// genScoped decorates a case with declarations of the script's own: a function under a helper's name (with
+// another behaviour), a top-level statement that calls a helper while the script is loaded, a const of a helper's name
+func genScoped(r *rng.R, c *ECase) {
+	used := map[string]bool{}
+	helpersOf(&c.Tree, used)
+	switch r.Intn(3) {
+	case 0: // the script's own version of a helper it uses (and sometimes of one it does not use)
+		var names []string
+		for h := range used {
+			if h != "dnsResolve" {
+				names = append(names, h)
+			}
+		}
+		sortStrings(names)
+		if len(names) == 0 || r.Chance(1, 5) {
+			names = append(names, r.Pick(shadowable))
+		}
+		vals := []JS{{T: "bool", B: true}, {T: "bool", B: false}, {T: "str", S: "10.9.8.7"}, {T: "num", N: 3}, {T: "null"}, {T: "str", S: ""}}
+		c.Shadows = []Shadow{{names[r.Intn(len(names))], vals[r.Intn(len(vals))]}}
+	case 1: // a helper called while the script is loaded
+		for tries := 0; tries < 20; tries++ {
+			h, a := genCall(r, "www.example.com", "http://www.example.com/")
+			if allLiteral(a) {
+				c.Tree = Tree{K: "show", H: h, Args: a}
+				c.AtLoad = true
+				if r.Chance(1, 4) {
+					c.Shadows = []Shadow{{h, JS{T: "str", S: "own"}}}
+				}
+				return
+			}
+		}
+	default: // a lexical declaration under the name of a JavaScript helper: an error of the script
+		c.Lexical = r.Pick(jsHelpers)
+	}
+}
+
 func genECase(r *rng.R) ECase {
 	c := ECase{Env: genEnv(r), URL: r.Pick(urlPool), Entry: "fn"}
 	switch r.Intn(12) {
@@ -612,6 +725,11 @@ func genECase(r *rng.R) ECase {
 		c.Tree = Tree{K: "show", H: h, Args: a}
 	} else {
 		c.Tree = *genTree(r, 1+r.Intn(3), host, u.String())
+	}
+	if c.Entry == "fn" || c.Entry == "fnx" {
+		if r.Chance(1, 8) {
+			genScoped(r, &c)
+		}
 	}
 	return c
 }
@@ -651,6 +769,19 @@ func corpusE() []ECase {
 		c.Env.DNS = map[string][]string{"both.test": {"2001:db8::7", "192.168.1.9", "10.9.9.9"}}
 		out = append(out, c)
 	}
+	// declarations of the script's own
+	own := mk(show("dnsDomainIs", Lit("www.example.com"), Lit(".example.org")))
+	own.Shadows = []Shadow{{"dnsDomainIs", JS{T: "bool", B: true}}}
+	own2 := mk(Tree{K: "node", H: "isInNet", Args: []Arg{Lit("10.23.255.1"), Lit("10.0.0.0"), Lit("255.0.0.0")},
+		Yes: &Tree{K: "leaf", V: Str("PROXY out.example.com:8080")}, No: &Tree{K: "leaf", V: Str("DIRECT")}})
+	own2.Shadows = []Shadow{{"isInNet", JS{T: "bool", B: false}}}
+	load := mk(show("isPlainHostName", Lit("intranet")))
+	load.AtLoad = true
+	load2 := mk(show("getClientVersion"))
+	load2.AtLoad = true
+	lex := mk(Tree{K: "leaf", V: Str("DIRECT")})
+	lex.Lexical = "shExpMatch"
+	out = append(out, own, own2, load, load2, lex)
 	for _, ent := range []string{"fnx", "both", "none", "notfn"} {
 		c := mk(Tree{K: "leaf", V: Str("DIRECT")})
 		c.Entry = ent
